@@ -35,6 +35,9 @@ func concretise(r *run, o *fovc.Obligation, model string) *replayResult {
 	if r.prop == "C18" {
 		return replayBSM(r, o, model)
 	}
+	if r.prop == "C09" {
+		return replayExhaustive(r, o, model)
+	}
 	if f, ok := replayers[pkg]; ok {
 		return f(r, o, model)
 	}
